@@ -331,6 +331,39 @@ func checkC18(ctx *Ctx) {
 			}
 		}
 		texts, rvals := rangeSet(e, r, p, nRanges)
+		if e.Name == "pypi" {
+			// identity operator: its result must not depend on padding of the probe either
+			for i := 0; i < 12 && i < len(p.Strs); i++ {
+				if pr := e.ParseRange("===" + strings.TrimSpace(p.Strs[i])); pr.OK {
+					texts = append(texts, "==="+strings.TrimSpace(p.Strs[i]))
+					rvals = append(rvals, pr.Val)
+				}
+			}
+		}
+		// padded versions against every range
+		for i, s := range p.Strs {
+			if i%2 == 1 {
+				continue
+			}
+			pad := r.Pick(pads) + s + r.Pick(pads)
+			pp := e.Parse(pad)
+			if !pp.OK {
+				continue // reported above
+			}
+			for k, rv := range rvals {
+				c0, _ := e.Contains(rv, p.Vals[i])
+				c1, _ := e.Contains(rv, pp.Val)
+				res.Evaluations += 2
+				if c0 != c1 {
+					v := Violation{Eco: e.Name, Kind: "version-padding-contains", Input: []string{texts[k], pad}, Expected: fmt.Sprint(c0) + " (as for the unpadded version)", Actual: fmt.Sprint(c1)}
+					if f := findingFor("C18", e.Name, v.Kind, texts[k], []string{pad}); f != "" {
+						v.Finding = f
+					}
+					res.violate(v)
+					break
+				}
+			}
+		}
 		for i, rt := range texts {
 			str, _ := e.StrR(rvals[i])
 			if strings.TrimSpace(str) != strings.TrimSpace(rt) {
